@@ -4,6 +4,13 @@ import FimVerif.Generated.LockCfg
 /-!
 # C20 — store lock discipline and identifier allocation under concurrent use
 
+Full statement (properties.jsonl): every store operation leaves the lock released exactly once on every
+path; under any interleaving of threads importing graphs / creating nodes no node is lost, no internal id is
+handed out twice, each graph ends up with exactly the nodes added to it.  Both halves are proved at full
+strength on the models (Part A: all paths of every method skeleton regenerated from the source; Part B: all
+thread counts, all accepted programs, all schedules); what stays outside is named in the property's
+`TRUSTED_BASE` (preemption inside a source line, the no-raise whitelist, symbol instantiation).
+
 Part A (this section): every path of every store method — any branch, any number of loop
 iterations, an exception at any statement not on the translator's short no-raise whitelist —
 leaves the lock released, having released it exactly once and never while it was not held.
@@ -45,10 +52,10 @@ theorem balanced_sound (p : Stmt) (h : balanced p = true) {tr : List Micro} {o :
   unfold lockRun
   generalize runQ lockStepC (some (false, 0)) tr = r at this
   cases r with
-  | none => simp [capSt] at this
+  | none => simp at this
   | some x =>
     obtain ⟨hh, n⟩ := x
-    simp only [capSt, beq_iff_eq, Option.some.injEq, Prod.mk.injEq] at this
+    simp only [beq_iff_eq, Option.some.injEq, Prod.mk.injEq] at this
     obtain ⟨h1, h2⟩ := this
     subst h1
     have : n = 1 := by omega
@@ -71,7 +78,7 @@ private theorem run_counts (tr : List Micro) : ∀ (h : Bool) (n : Nat) (h' : Bo
     cases m <;> cases h <;> simp only [lockStepC, if_true, if_false, Bool.false_eq_true] at e <;>
       first
       | (rw [none_run] at e; cases e)
-      | (have := ih _ _ _ _ e; simp [List.count_cons] at this ⊢; omega)
+      | (have := ih _ _ _ _ e; simp at this ⊢; omega)
 
 /-- released exactly once, acquired exactly once -/
 theorem released_exactly_once {tr : List Micro} (h : lockRun tr = some (false, 1)) :
